@@ -126,8 +126,14 @@ fn dispatch() -> RunResult {
     let by: Vec<usize> = bodies.iter().map(|_| sim::choose("task.dispatched.by", extra + 1)).collect();
     // receivers the main task awaits before it joins (the others are looked at afterwards)
     let before_join: Vec<bool> = bodies.iter().map(|_| sim::flip("await.before.join", 1, 2)).collect();
+    // fire and forget: the receiver is dropped as soon as the task is dispatched (the task runs all the same)
+    let forget: Vec<bool> = bodies.iter().map(|_| sim::flip("receiver.dropped", 1, 5)).collect();
+    // the results awaited before the join are awaited by the main task itself or by a local task each (their
+    // wake-ups then come through the main runtime's cross-thread queue, which may be as short as one entry)
+    let in_tasks = sim::flip("await.in.tasks", 1, 2);
+    let sync_queue = [1usize, 2, 64][sim::choose("sync.queue.size", 3)];
     let capacity = 1u32 << sim::range("ring.capacity.log2", 1, 5);
-    sim::log(|| format!("{workers} workers, {}; tasks {bodies:?} dispatched by {by:?}, awaited before join {before_join:?}; ring capacity {capacity}; {cfg:?}", if concurrent { "concurrent" } else { "sequential" }));
+    sim::log(|| format!("{workers} workers, {}; tasks {bodies:?} dispatched by {by:?}, awaited before join {before_join:?} ({}), receivers dropped {forget:?}; ring capacity {capacity}, cross-thread queue of {sync_queue}; {cfg:?}", if concurrent { "concurrent" } else { "sequential" }, if in_tasks { "by a task each" } else { "by the main task" }));
 
     let errs = SharedErrs::default();
     let n = bodies.len();
@@ -136,11 +142,11 @@ fn dispatch() -> RunResult {
     let joined = Arc::new(AtomicBool::new(false));
 
     let (end, multi) = run_on_kernel_multi(cfg, {
-        let (errs, started, finished, joined, bodies, by, before_join) = (errs.clone(), started.clone(), finished.clone(), joined.clone(), bodies.clone(), by.clone(), before_join.clone());
+        let (errs, started, finished, joined, bodies, by, before_join, forget) = (errs.clone(), started.clone(), finished.clone(), joined.clone(), bodies.clone(), by.clone(), before_join.clone(), forget.clone());
         move || {
             let mut pb = ProactorBuilder::new();
             pb.capacity(capacity).driver_type(compio_driver::DriverType::IoUring);
-            let rt = compio_runtime::Runtime::builder().with_proactor(pb.clone()).build().expect("runtime");
+            let rt = compio_runtime::Runtime::builder().with_proactor(pb.clone()).sync_queue_size(sync_queue).build().expect("runtime");
             rt.block_on(async {
                 let dispatcher = compio_dispatcher::Dispatcher::builder()
                     .worker_threads(NonZeroUsize::new(workers).unwrap())
@@ -249,15 +255,34 @@ fn dispatch() -> RunResult {
                         Err(_) => errs.push("panic", "a dispatching thread panicked".to_string()),
                     }
                 }
+                for k in (0..n).filter(|&k| forget[k]) {
+                    receivers[k] = None;
+                }
                 sim::log(|| "everything is dispatched".to_string());
                 // ---- results awaited before the join: the task runs to its end and its own value arrives
                 let limit = Duration::from_secs(5);
+                let mut waiting: Vec<Option<compio_runtime::JoinHandle<Result<Result<u64, futures_channel::oneshot::Canceled>, compio_runtime::time::Elapsed>>>> = (0..n).map(|_| None).collect();
+                if in_tasks {
+                    for k in (0..n).filter(|&k| before_join[k]) {
+                        if let Some(rx) = receivers[k].take() {
+                            waiting[k] = Some(compio_runtime::spawn(async move { compio_runtime::time::timeout(limit, rx).await }));
+                        }
+                    }
+                }
                 for k in 0..n {
                     if !before_join[k] {
                         continue;
                     }
-                    let Some(rx) = receivers[k].take() else { continue };
-                    match compio_runtime::time::timeout(limit, rx).await {
+                    let got = if let Some(w) = waiting[k].take() {
+                        match w.await {
+                            Ok(r) => r,
+                            Err(_) => continue,
+                        }
+                    } else {
+                        let Some(rx) = receivers[k].take() else { continue };
+                        compio_runtime::time::timeout(limit, rx).await
+                    };
+                    match got {
                         Ok(Ok(v)) if v == value(k) && !matches!(bodies[k], Body::Panic) => sim::log(|| format!("result of task {k} received")),
                         Ok(Err(_)) if matches!(bodies[k], Body::Panic) => sim::log(|| format!("task {k} panicked: its receiver reports cancellation")),
                         Ok(Ok(v)) => errs.push("wrong-result", format!("the receiver of task {k} yielded {v}, the task returns {}", value(k))),
